@@ -1,24 +1,28 @@
 """C07 - aggregators compute the exact fold of their sample history."""
 import json
 import os
-from vf import Inconclusive, parallel, require_clean, trace_slice, vfj_lines
+from vf import Inconclusive, parallel, require_clean, trace_slice
 
 CLAIM = {
-    "text": "Aggregators.tla states what the histogram counter, sub-key counter, table (incl. Trim), accumulating group and numerical aggregator hold after a history, once as an order-free bag fold and once as a state machine; AggregatorsImpl.tla transcribes the Go data structures (sorted sub-key list with re-indexed row vectors, cells with redundant row/column totals, Trim's nested map loops in every iteration order, sorted value list). TLC checks over all histories within the bounds: state machine = bag fold, permutation invariance, commutation of any two samples, totals = sums of cells, min/max with absent cells as 0, Trim post-condition, the simulation relation implementation-shaped => abstract, rank definitions = sorted-list indices, and that the mean/stddev tolerances accept the exact value and reject neighbours. Every enumerated history (every prefix is a vector) is replayed on the real aggregators comparing every public accessor with the value TLC computed; seeded long random histories over large alphabets are recorded from the real aggregators and validated by TLC (exact BigInt moments, rank order statistics).",
-    "note": "Bounded: exhaustive only for the listed alphabets/lengths, random beyond. Increments are limited to 9 digits and totals to +-10^9 (TLC integers), int64 overflow is outside the model. Mean is accepted within 10^-3 absolute, the sample standard deviation within 10^-3 absolute + 10^-6 relative; median = rank floor(n/2)+1, quantile(p) = rank min(floor(n*p)+1, n) of the (optionally reversed) ordered series, checked where floor(n*p) is not at the mercy of binary rounding (p a multiple of 1/8 or n*p not an integer); any most frequent value is accepted as mode. After a Trim only cells, rows, columns and min/max are specified (the row/column totals kept by the implementation are not part of the property). Sorted order of SubKeys() is a model invariant, not a verdict. Trusted: Go strconv, the expression engine for the accumulator's helper functions (sumi/maxi/mini semantics are modelled), TLC.",
-    "technique": "TLA+ model checking (TLC) with simulation-relation refinement + model-history replay + trace validation with exact rational arithmetic",
+    "text": "Aggregators.tla states what the histogram counter, sub-key counter, table (incl. Trim), accumulating group and numerical aggregator hold after a history, once as an order-free bag fold and once as a state machine in which reading the aggregator (any accessor, any time) is an explicit stuttering step; AggregatorsImpl.tla transcribes the Go data structures (sorted sub-key list with re-indexed row vectors, cells with redundant row/column totals, Trim's nested map loops in every iteration order, value list sorted in place by Analyze, optionally a memoising ComputeMinMax). Numerical values up to 10^11 are read into exact big integers and folded relative to a base (shift law: count, order statistics, min, max and mean shift with the base, the variance does not). TLC checks over all histories within the bounds - samples, trims and observation steps interleaved in every order: state machine = bag fold, permutation invariance, commutation of any two samples, totals = sums of cells, min/max with absent cells as 0, Trim post-condition, the simulation relation implementation-shaped => abstract after every interleaving (a memo dropped by SampleItem and Trim passes, one that Trim does not drop must fail: negative control), rank definitions = sorted-list indices, exact moments of the full large values = shifted moments of the deltas, text <-> value round trip, and that the mean/stddev tolerances accept the exact value and reject neighbours. Every enumerated history (every prefix is a vector) is replayed on ONE long-lived real aggregator instance, reading every public accessor at each observation step and at the end and comparing with the value TLC computed, once feeding the samples as text and once through the typed entry points with the arguments the specification decoded; seeded long random histories over large alphabets and large numerical offsets, with observations and trims interleaved at random, are recorded from the real aggregators and validated by TLC (exact BigInt moments, rank order statistics).",
+    "note": "Bounded: exhaustive only for the listed alphabets/lengths, random beyond. Increments are limited to 9 digits and totals to +-10^9 (TLC integers), int64 overflow is outside the model. Numerical samples: decimal texts with <= 11 integer and <= 3 fraction digits, all values of one history within +-10^6 of its base. Mean is accepted within 10^-3 absolute, the sample standard deviation within 10^-3 absolute + 10^-6 relative, both plus a floating-point allowance of about 4*n*|base|*2^-52 (0 for base 0; 10^-3 at n = 588 for base 1.7*10^9); median = rank floor(n/2)+1, quantile(p) = rank min(floor(n*p)+1, n) of the (optionally reversed) ordered series, checked where floor(n*p) is not at the mercy of binary rounding (p a multiple of 1/8 or n*p not an integer); any most frequent value is accepted as mode. After a Trim only cells, rows, columns and min/max are specified (the row/column totals kept by the implementation are not part of the property). Sorted order of SubKeys() is a model invariant, not a verdict. A StatisticalAnalysis handle obtained before later samples is not specified (a fresh Analyze() is taken at every observation). Trusted: Go strconv, the expression engine for the accumulator's helper functions (sumi/maxi/mini semantics are modelled), TLC.",
+    "technique": "TLA+ model checking (TLC) with simulation-relation refinement and a negative control + model-history replay on long-lived instances + trace validation with exact rational arithmetic",
 }
 
-CONST = ("CONSTANTS Which = \"%s\"\n Profile = %d\n MaxLen = %d\n TrimFixed = TRUE\n"
+CONST = ("CONSTANTS Which = \"%s\"\n Profile = %d\n MaxLen = %d\n Memo = \"%s\"\n TrimFixed = %s\n"
          " Elems <- MCElems\n Preds <- MCPreds\n AccCfg <- MCAccCfg\n")
 
 
-def mc_cfg(which, prof, maxlen, invs):
-    return "SPECIFICATION Spec\n" + CONST % (which, prof, maxlen) + "INVARIANTS %s\nCHECK_DEADLOCK FALSE\n" % invs
+def mc_cfg(which, prof, maxlen, invs, memo="none"):
+    # Memo = "oldtrim": the negative control for Trim as it was before fix 1000522
+    tf = "FALSE" if memo == "oldtrim" else "TRUE"
+    memo = "none" if memo == "oldtrim" else memo
+    return "SPECIFICATION Spec\n" + CONST % (which, prof, maxlen, memo, tf) + "INVARIANTS %s\nCHECK_DEADLOCK FALSE\n" % invs
 
 
-def gen_cfg(which, prof, maxlen, invs="FoldOK PermInv Dump"):
-    return "INIT GInit\nNEXT GNext\n" + CONST % (which, prof, maxlen) + "INVARIANTS %s\nCHECK_DEADLOCK FALSE\n" % invs
+def gen_cfg(which, prof, maxlen, invs, obs_repeat):
+    return ("INIT GInit\nNEXT GNext\n" + CONST % (which, prof, maxlen, "none", "TRUE") + " ObsRepeat = %s\n" % ("TRUE" if obs_repeat else "FALSE")
+            + "INVARIANTS %s\nCHECK_DEADLOCK FALSE\n" % invs)
 
 
 TRACE_CFG = ("SPECIFICATION TSpec\nCONSTANTS Elems <- TrNone\n Preds <- TrNone\n AccCfg <- TrCfg\n"
@@ -29,61 +33,99 @@ def check(run):
     quick = run.tier == "quick"
     run.assumptions += [
         "increments of at most 9 digits, totals within +-10^9 (TLC integers are 32 bit); int64 overflow not modelled",
-        "numerical samples: decimal texts with <= 3 fraction digits (exact in units of 10^-3); exponents, hex floats, inf/nan are outside the domain",
-        "mean within 10^-3; stddev within 10^-3 + 10^-6 relative; median = rank floor(n/2)+1; quantile(p) = rank min(floor(n*p)+1, n); any most frequent value is a mode",
+        "numerical samples: decimal texts with <= 11 integer and <= 3 fraction digits (exact in units of 10^-3), every value of a history within +-10^6 of the history's base; exponents, hex floats, inf/nan are outside the domain",
+        "mean within 10^-3; stddev within 10^-3 + 10^-6 relative; both plus floor(n*(floor(|base|/10^5)+1)/10^7)*10^-3 for floating-point summation at a large base; median = rank floor(n/2)+1; quantile(p) = rank min(floor(n*p)+1, n); any most frequent value is a mode",
+        "accessors are specified as pure reads: Observe steps (all public accessors) may be interleaved anywhere; a StatisticalAnalysis handle kept across later samples is not specified",
         "after Trim only cells / rows / columns / min / max are specified; Trim's return value only bounded (>= selected existing cells, <= rows x columns)",
         "B3/B1 bounds: alphabets and history lengths as listed in tlc_runs",
     ]
     run.build_harness()
-    # ---- B3: implementation-shaped layer in lock step with the abstract machine, no history variable
-    S, C, T = "Sim", "Sim Commute", "Sim TotalsOK TrimOK"
-    # (longest jobs first: four TLC processes with two workers each run at a time)
+    # ---- B3 + B1 generator.  Aggregators_Gen: every history (samples, trims and observation steps in every
+    # order) is a state; fold laws, simulation relation, one vector per history.  AggregatorsImpl: no history
+    # variable, deeper; costly laws.  (gen/mc, aggregator, profile, MaxLen, invariants, Memo, consecutive "o")
+    G = "FoldOK PermInv Sim Dump"
+    T = "Sim TotalsOK TrimOK"
     if quick:
-        gen = [("sub", 2, 4), ("num", 1, 4), ("sub", 1, 3), ("tbl", 2, 4), ("tbl", 1, 3), ("ctr", 1, 3),
-               ("ctr", 2, 4), ("acc", 1, 4), ("acc", 2, 4), ("acc", 3, 3)]
-        mc = [("num", 1, 5, "Sim OrderStats MomentsOK"), ("sub", 2, 4, C), ("ctr", 1, 3, S), ("ctr", 2, 5, C),
-              ("sub", 1, 3, "Sim TotalsOK"), ("tbl", 1, 3, T), ("tbl", 2, 4, T + " Commute"), ("num", 1, 3, "Commute")]
+        plan = [
+            ("gen", "sub", 2, 4, G, "none", False), ("gen", "tbl", 2, 4, G, "none", False),
+            ("mc", "num", 1, 5, "Sim OrderStats MomentsOK ShiftLawLe3 TextLaw CommuteLe3", "none", True), ("mc", "sub", 2, 4, "Sim CommuteB", "none", True),
+            ("gen", "num", 1, 4, G, "none", False), ("gen", "sub", 1, 3, G + " TotalsOK", "none", True),
+            ("gen", "tbl", 1, 3, G + " TotalsOK TrimOK", "none", True), ("gen", "ctr", 1, 3, G, "none", True),
+            ("gen", "num", 2, 3, G + " NumLawsLe3 TextLaw", "none", True), ("gen", "ctr", 2, 4, G, "none", True),
+            ("mc", "tbl", 2, 4, T + " CommuteB", "none", True), ("mc", "ctr", 2, 5, "Sim CommuteB", "none", True),
+            ("gen", "acc", 1, 4, G, "none", False), ("gen", "acc", 2, 4, G, "none", False), ("gen", "acc", 3, 3, G, "none", True),
+            ("mc", "tbl", 2, 4, T, "ok", True), ("neg", "tbl", 2, 4, "Sim", "stale", True),
+        ]
     else:
-        gen = [("sub", 2, 5), ("tbl", 2, 5), ("num", 1, 5), ("ctr", 2, 5), ("sub", 1, 3), ("tbl", 1, 3), ("ctr", 1, 3),
-               ("acc", 1, 5), ("acc", 2, 5), ("acc", 3, 5)]
-        mc = [("num", 1, 6, "Sim OrderStats MomentsOK"), ("sub", 2, 5, C), ("sub", 1, 4, "Sim TotalsOK"), ("ctr", 1, 5, S),
-              ("ctr", 2, 7, C), ("tbl", 1, 4, T), ("tbl", 2, 5, T + " Commute"), ("num", 1, 5, "Commute")]
+        plan = [
+            ("gen", "sub", 2, 5, G, "none", False), ("gen", "tbl", 2, 5, G, "none", False), ("gen", "num", 1, 5, G, "none", False),
+            ("mc", "num", 1, 6, "Sim OrderStats MomentsOK ShiftLawLe3 TextLaw CommuteLe3", "none", True), ("mc", "sub", 2, 5, "Sim CommuteB", "none", True),
+            ("gen", "ctr", 2, 5, G, "none", True), ("gen", "sub", 1, 3, G + " TotalsOK", "none", True),
+            ("gen", "tbl", 1, 3, G + " TotalsOK TrimOK", "none", True), ("gen", "ctr", 1, 3, G, "none", True),
+            ("gen", "num", 2, 5, G + " NumLawsLe3 TextLaw", "none", True),
+            ("gen", "num", 3, 4, G + " NumLawsLe3 TextLaw", "none", True), ("gen", "num", 4, 4, G + " NumLawsLe3 TextLaw", "none", True),
+            ("gen", "num", 5, 4, G + " NumLawsLe3 TextLaw", "none", True),
+            ("mc", "sub", 1, 4, "Sim TotalsOK", "none", True), ("mc", "ctr", 1, 5, "Sim", "none", True),
+            ("mc", "ctr", 2, 7, "Sim CommuteB", "none", True), ("mc", "tbl", 1, 4, T, "none", True),
+            ("mc", "tbl", 2, 5, T + " CommuteB", "none", True),
+            ("gen", "acc", 1, 5, G, "none", False), ("gen", "acc", 2, 5, G, "none", False), ("gen", "acc", 3, 5, G, "none", True),
+            ("mc", "tbl", 2, 5, T, "ok", True), ("mc", "tbl", 1, 4, T, "ok", True),
+            ("neg", "tbl", 2, 4, "Sim", "stale", True), ("neg", "tbl", 1, 3, "Sim", "stale", True),
+            ("neg", "tbl", 1, 3, "Sim", "oldtrim", True),
+        ]
     jobs = []
-    # ---- B3 with history (fold = bag fold, permutation invariance) + B1 generator
-    for which, prof, ml in gen:
-        jobs.append(lambda which=which, prof=prof, ml=ml: ("gen", which, prof, run.tlc(
-            "Aggregators_Gen", gen_cfg(which, prof, ml), workers=2, xmx="3g", timeout=3000,
-            label="Aggregators_Gen %s profile=%d MaxLen=%d [FoldOK PermInv Dump]" % (which, prof, ml))))
-    for which, prof, ml, invs in mc:
-        jobs.append(lambda which=which, prof=prof, ml=ml, invs=invs: ("mc", which, prof, run.tlc(
-            "AggregatorsImpl", mc_cfg(which, prof, ml, invs), workers=2, xmx="3g", timeout=3000,
-            label="AggregatorsImpl %s profile=%d MaxLen=%d [%s]" % (which, prof, ml, invs))))
+    for kind, which, prof, ml, invs, memo, rep in plan:
+        if kind == "gen":
+            jobs.append(lambda kind=kind, which=which, prof=prof, ml=ml, invs=invs, rep=rep: (kind, which, prof, run.tlc(
+                "Aggregators_Gen", gen_cfg(which, prof, ml, invs, rep), workers=2, xmx="3g", timeout=3000,
+                label="Aggregators_Gen %s profile=%d MaxLen=%d%s [%s]" % (which, prof, ml, "" if rep else " (no o-o)", invs))))
+        else:
+            jobs.append(lambda kind=kind, which=which, prof=prof, ml=ml, invs=invs, memo=memo: (kind, which, prof, run.tlc(
+                "AggregatorsImpl", mc_cfg(which, prof, ml, invs, memo), workers=2, xmx="3g", timeout=3000,
+                label="AggregatorsImpl %s profile=%d MaxLen=%d Memo=%s [%s]%s" % (
+                    which, prof, ml, memo, invs, " negative control: must be violated" if kind == "neg" else ""))))
     vec_path = os.path.join(run.scratch, "c07-vectors.ndjson")
-    nvec, ntrim, per = 0, 0, {}
+    nvec, ntrim, nobsv, per = 0, 0, 0, {}
     acccfg = {}
     with open(vec_path, "w") as f:
         for kind, which, prof, r in parallel(jobs, 4):
+            if kind == "neg":
+                # a ComputeMinMax memo that Trim does not drop must break the simulation relation
+                # (sample, observe, trim, observe), and so must Trim as it was before fix 1000522;
+                # otherwise the model would not see that class of defect
+                if "Sim" not in r.violated:
+                    raise Inconclusive("negative control passed (%s profile %d): Sim not violated\n%s" % (which, prof, r.out[-2000:]))
+                continue
             require_clean(run, r, "%s %s profile %d" % (kind, which, prof))
             if kind != "gen":
                 continue
-            for v in vfj_lines(r.out):
-                f.write(json.dumps(v, separators=(",", ":")) + "\n")
+            for line in r.out.splitlines():
+                if not line.startswith('"VFJ '):
+                    continue
+                text = json.loads(line)[4:]          # the vector as JSON text, passed on as it is
+                f.write(text + "\n")
                 nvec += 1
                 per[which] = per.get(which, 0) + 1
-                if which == "tbl" and any(s["op"] == "t" for s in v["h"]):
+                if which == "tbl" and '"op":"t"' in text:
                     ntrim += 1
+                if '"op":"o"' in text:
+                    nobsv += 1
                 if which == "acc" and str(prof) not in acccfg:
-                    acccfg[str(prof)] = {"groups": v["exp"]["groups"], "cols": v["exp"]["cols"]}
-    if nvec < 20000 or ntrim < 1000 or len(per) < 5 or len(acccfg) < 3:
-        raise Inconclusive("generator produced too little: %d vectors %s, %d with trims" % (nvec, per, ntrim))
+                    acccfg[str(prof)] = json.loads(text)["cfg"]
+    if nvec < 20000 or ntrim < 1000 or nobsv < 5000 or len(per) < 5 or len(acccfg) < 3:
+        raise Inconclusive("generator produced too little: %d vectors %s, %d with trims, %d with observation steps" % (
+            nvec, per, ntrim, nobsv))
+    run.cov["b1_vectors_with_observation_steps"] = nobsv
     # ---- B1: every enumerated history replayed on the real aggregators
     res_path = os.path.join(run.scratch, "c07-replay.json")
     run.drv(["replay", "-in", vec_path, "-out", res_path])
     res = json.load(open(res_path))
-    if res["runs"] != nvec:
+    if res["runs"] != nvec or res["executions"] < nvec:
         raise Inconclusive("replay ran %d of %d vectors" % (res["runs"], nvec))
-    run.cov["traces_validated_against_impl"] += res["runs"]
-    run.cov["evaluations"] += res["runs"]
+    run.cov["traces_validated_against_impl"] += res["executions"]
+    run.cov["b1_executions"] = res["executions"]
+    run.cov["evaluations"] += res["observations"]
+    run.cov["b1_observations"] = res["observations"]
     run.cov["distinct_nontrivial"] += res["distinct_nontrivial"]
     run.cov["b1_vectors_per_aggregator"] = res["per_agg"]
     for s in res["samples"] or []:
@@ -126,6 +168,8 @@ def check(run):
         run.violation("b2:%s:%s" % (agg, ev["event"]),
                       "recorded execution of the real %s aggregator is not a behaviour of Aggregators.tla: event %d of trace %d rejected: %s" % (
                           agg, nsteps, bad["t"], json.dumps(ev)[:500]), path)
-    run.cov["rule"] = ("B3: all histories within the bounds; B1: one vector per enumerated history (every prefix is its own "
-                       "vector), all accessors compared, non-trivial = history of >= 2 steps; B2: seeded random histories "
-                       "(15 traces, 10^2..10^4 samples each), non-trivial = every recorded observation (all accessors)")
+    run.cov["rule"] = ("B3: all histories within the bounds; B1: one vector per enumerated history of samples / trims / "
+                       "observation steps (every prefix is its own vector), replayed on one long-lived instance per entry "
+                       "point (text, typed), all accessors compared at every observation step and at the end, non-trivial = "
+                       "history of >= 2 steps; B2: seeded random histories (%d traces, 7..10^4 samples each, numerical bases up "
+                       "to 10^10), non-trivial = every recorded observation (all accessors)" % ntr)
